@@ -49,7 +49,7 @@ def gen_jobs(tier, seed):
         # linearity law of the denotation
         jobs.append(("linear", gen_cfg(seed, [4], True, (0, 1, 2), [0], 3, "uniform", allb, 1, ["again"], 4)))
     else:
-        for sd in (seed, seed + 1):
+        for sd in (seed, seed + 1, seed + 2):
             for c in (0, 1, 2):
                 for a in (0, 1, 2):
                     jobs.append(("s%d uni7 %s %s" % (sd, CYC[c], ADAPT[a]),
@@ -58,8 +58,9 @@ def gen_jobs(tier, seed):
                 for a in (0, 1, 2):
                     jobs.append(("s%d onediff7 %s %s" % (sd, CYC[c], ADAPT[a]),
                                  gen_cfg(sd, [7], True, [c], [a], 5, "onediff", allb, 2, ["again", "all"], 0)))
-            jobs.append(("s%d N1-6" % sd, gen_cfg(sd, [1, 2, 3, 4, 5, 6], True, (0, 1, 2), (0, 1, 2), 5, "uniform", allb, 2,
-                                                   ["again", "cycle", "levels", "adapt", "all"], 0)))
+            for c in (0, 1, 2):
+                jobs.append(("s%d N1-6 %s" % (sd, CYC[c]), gen_cfg(sd, [1, 2, 3, 4, 5, 6], True, [c], (0, 1, 2), 5, "uniform", allb, 2,
+                                                                    ["again", "cycle", "levels", "adapt", "all"], 0)))
             jobs.append(("s%d linear" % sd, gen_cfg(sd, [5, 7], True, (0, 1, 2), [0], 4, "uniform", allb, 1, ["again"], 5)))
     return jobs
 
@@ -123,7 +124,7 @@ def real_cases(tier):
         runs += [{"cyc": c, "adapt": 1, "peak": True} for c in (0, 1, 2)] + [{"cyc": 0, "adapt": 2, "peak": True}]
         return [{"lmax": l, "lmin": 1, "steps": 2, "iters": 8, "seed": vlib.seed(), "runs": runs} for l in (2, 3, 4, 5, 6)]
     runs = [{"cyc": c, "adapt": a, "peak": p} for c in (0, 1, 2) for a in (0, 1, 2) for p in (True, False)]
-    return [{"lmax": l, "lmin": 1, "steps": s, "iters": 10, "seed": vlib.seed() + s, "runs": runs} for s in (2, 3) for l in (2, 3, 4, 5, 6, 7)]
+    return [{"lmax": l, "lmin": 1, "steps": s, "iters": 10, "seed": vlib.seed() + s, "runs": runs} for s in (1, 2, 3) for l in (2, 3, 4, 5, 6, 7)]
 
 
 def validate_real(chk, binary):
@@ -223,7 +224,7 @@ def run(chk):
                 "level complementary, first application = any cycle x sub-range x adaptive mode (W up to L=%d), then again / set_cycle / set_levels / "
                 "set_adapt_cgc / all; each replayed on the real MultiGrid over Z_32003 mocks with poisoned level vectors, call log and correction compared "
                 "exactly; non-trivial = at least one application with L >= 1; distinct = distinct (seed, hierarchy, application configurations); "
-                "(V) every recorded run of the LAFEM hierarchy validated by TLC against spec/MGCycleRate.tla" % (7 if tier == "quick" else 8, 6))
+                "(V) every recorded run of the LAFEM hierarchy validated by TLC against spec/MGCycleRate.tla" % (7 if tier == "quick" else 9, 6))
     for c in cases[len(cases) // 3: len(cases) // 3 + 2]:
         chk.sample({"N": c["N"], "pre/post/peak/cs": [c["pre"], c["post"], c["peak"], c["cs"]], "k": c["k"],
                     "apps": [{"how": a["how"], "cycle": CYC[a["cyc"]], "top": a["top"], "crs": a["crs"], "adapt": ADAPT[a["adapt"]],
@@ -242,8 +243,12 @@ def run(chk):
 def replay(obj):
     mock, real = vlib.build(["c09_mgmock", "c09_mgreal"], jobs=4)
     bad = 0
+    redo_real = False
     for v in obj["violations"]:
         rp = v.get("replay") or {}
+        if rp.get("kind") == "tlc" and (v.get("sig") or {}).get("kind") == "real":
+            redo_real = True      # a recorded run was rejected by MGCycleRate.tla: record and validate the runs again (below)
+            continue
         if rp.get("kind") != "case":
             print(json.dumps({"sig": v["sig"], "desc": v["desc"][:400]}))
             bad += 1
@@ -253,4 +258,11 @@ def replay(obj):
         print(json.dumps({"sig": v["sig"], "result": r})[:1200])
         if r.get("ok") is not True:
             bad += 1
+    if redo_real:
+        chk = vlib.Check("C09", tier=os.environ.get("VERIF_TIER", "quick"))
+        validate_real(chk, real)
+        for s_, d, _ in chk.violations:
+            print(json.dumps({"sig": s_, "desc": d[:600]}))
+        print(json.dumps({"rates_by_mesh_level": chk.extra.get("rates_by_mesh_level")}))
+        bad += len(chk.violations)
     return 1 if bad else 0
